@@ -38,7 +38,16 @@ fn plan(tier: Tier, _seed: u64) -> Plan {
 	}
 }
 
-fn finalize(_t: Tier, _p: &Plan, rep: &mut Report) {
+fn finalize_order(rep: &mut Report) {
+	if rep.counter("transform_order_markers_seen") == 0 {
+		rep.inconclusive("the transform-order check saw no updated feature");
+	}
+}
+
+fn finalize(t: Tier, _p: &Plan, rep: &mut Report) {
+	if !t.is_tiny() {
+		finalize_order(rep);
+	}
 	for k in ["valid_texts", "invalid_texts", "factory_rejections_checked", "texts_with_escapes", "texts_with_nested_sources"] {
 		if rep.counter(k) == 0 {
 			rep.inconclusive(&format!("nothing observed for {k}"));
@@ -449,6 +458,9 @@ fn run_case(cx: &CaseCtx, rep: &mut Report) {
 		("from_container filename=\"x\" | filter_zoom min=256".to_string(), "mistyped numeric parameter"),
 		("from_container filename=\"x\" | filter_bbox bbox=[1,2,3]".to_string(), "mistyped list parameter"),
 		("from_container filename=\"x\" | filter_bbox bbox=[a,b,c,d]".to_string(), "mistyped list parameter"),
+		("from_container filename=\"x\" | filter_bbox bbox=[1,2,x,3,4]".to_string(), "mistyped list parameter (five entries, one of them not a number)"),
+		("from_container filename=\"x\" | filter_bbox bbox=[west,1,2,3,4]".to_string(), "mistyped list parameter (five entries, one of them not a number)"),
+		("from_container filename=\"x\" | filter_bbox bbox=[1,2,3,4,5]".to_string(), "mistyped list parameter"),
 		("from_container filename=[a,b]".to_string(), "list where a single value is required"),
 		("from_container filename=\"x\" | filter_zoom min=[]".to_string(), "empty list where a single value is required"),
 		("from_container filename=\"x\" | filter_zoom min=[1,2]".to_string(), "list where a single value is required"),
@@ -485,4 +497,73 @@ fn run_case(cx: &CaseCtx, rep: &mut Report) {
 			Ok(Ok(_)) => {}
 		}
 	}
+	if !cx.tier.is_tiny() {
+		transform_order(cx, rep, &mut rng);
+	}
+}
+
+/// "parsed into exactly that sequence of operations": the *built* pipeline applies its transform stages in the
+/// written order. Every stage overwrites the same property with its own marker, so the marker that is left
+/// names the stage that ran last — at the top level and inside a nested source list.
+fn transform_order(cx: &CaseCtx, rep: &mut Report, rng: &mut Rng) {
+	use crate::codec::imvt;
+	use crate::pipe::{self, Sources, Src};
+	cx.progress("transform order");
+	let dir = cx.fresh_dir("c18order");
+	let go = imvt::GenOpts { extreme_values: false, unknown_geom: false, id_field: Some("osm_id".into()), max_features: 6, layer_names: vec!["roads".into(), "water".into()], max_layers: 2, ..Default::default() };
+	let sets = crate::mvtsrc::gen_vector_sets(rng, 1, &go, false, &imvt::EncOpts::default());
+	let set = &sets[0];
+	let mut sources = Sources::new();
+	sources.add("v0.x", Src::Mem { ts: set.tileset("v0"), pyramid: None, default_stream: false, yields: 0, open_yields: 0 });
+	for i in 0..4 {
+		let mut t = String::from("id,marker\n");
+		for id in (0..12).map(|n| format!("id{n}")).chain((0..12).map(|n| n.to_string())) {
+			t.push_str(&format!("{id},m{i}\n"));
+		}
+		if std::fs::write(dir.join(format!("step{i}.csv")), t).is_err() {
+			rep.inconclusive("cannot write the CSV fixtures");
+			return;
+		}
+	}
+	let stage = |i: usize| format!("vectortiles_update_properties data_source_path=\"step{i}.csv\" layer_name=roads id_field_tiles=osm_id id_field_data=id");
+	for n in 2..=4usize {
+		for nested in [false, true] {
+			let chain = (0..n).map(stage).collect::<Vec<_>>().join(" | ");
+			let vpl = if nested { format!("from_overlayed [ from_container filename=v0.x | {chain}, from_container filename=v0.x ]") } else { format!("from_container filename=v0.x | {chain}") };
+			rep.eval();
+			rep.count("transform_order_pipelines", 1);
+			rep.nontrivial(fnv(vpl.as_bytes()));
+			let want = format!("m{}", n - 1);
+			let r = guard::catch(|| {
+				guard::block_on(async {
+					let (reader, _) = pipe::build(&vpl, &sources, Some(&dir)).await.map_err(|e| format!("{e:#}"))?;
+					let mut seen: Vec<String> = vec![];
+					for k in set.blobs.keys() {
+						let Some(b) = reader.get_tile_data(&crate::gen::coord_of(k)).await.map_err(|e| format!("{e:#}"))? else { continue };
+						let raw = crate::comp::decompress(b.as_slice(), crate::comp::Comp::from_core(reader.get_parameters().tile_compression)).map_err(|e| e.to_string())?;
+						let t = imvt::decode(&raw)?;
+						if let Some(l) = t.layer("roads") {
+							for f in &l.features {
+								if let (Some(_), Some(imvt::CVal::Str(m))) = (f.props.get("osm_id"), f.props.get("marker")) {
+									seen.push(m.clone());
+								}
+							}
+						}
+					}
+					Ok::<Vec<String>, String>(seen)
+				})
+			});
+			match r {
+				Err(p) => rep.violation(&p.signature("transform-order"), "building / reading a chain of transform stages panicked", json!({"vpl": vpl, "panic": p.describe()})),
+				Ok(Err(e)) => rep.violation("order|chain-failed", "a well-formed chain of transform stages failed", json!({"vpl": vpl, "error": e})),
+				Ok(Ok(seen)) => {
+					rep.count("transform_order_markers_seen", seen.len() as u64);
+					if let Some(bad) = seen.iter().find(|m| **m != want) {
+						rep.violation(&format!("order|stages={n}|{}", if nested { "nested" } else { "top-level" }), "the transform stages did not run in the written order", json!({"vpl": vpl, "marker_left": bad, "expected": want}));
+					}
+				}
+			}
+		}
+	}
+	let _ = std::fs::remove_dir_all(&dir);
 }
